@@ -85,7 +85,7 @@ def generate(rng, tier):
             args += ["-sf", "@R/" + rng.choice(files)]
             root = "@R"
         ops.append(scen.cmd("create", root, *args))
-        ops.append(scen.gen_advance(rng))
+        ops.append(scen.gen_advance(rng) if rng.random() < 0.85 else {"op": "step_back", "us": rng.choice([3_600_000_000, 7_200_000_000, 90_000_000])})
         if late_nested and g >= 0 and rng.random() < 0.6:
             # a nested history that starts its life after the parent already carries patterns
             sub = late_nested.pop()
